@@ -1,4 +1,41 @@
-From Mammoth Require Import Html.
-Example c14_placeholder : strip_empty [] = [].
-Proof. reflexivity. Qed.
-Print Assumptions c14_placeholder.
+(* C14 — empty content is dropped by default and kept on request, never the reverse (forest level). *)
+From Mammoth Require Import Html Writer HtmlTables HtmlStrip.
+Local Open Scope N_scope.
+
+(* a node disappears exactly when it has no content: no non-empty text, no force-write marker
+   (bookmarks, table structure, paragraphs when ignore_empty_paragraphs=False), no childless void element *)
+Theorem C14_dropped_iff_empty (n : node str) : strip_node n = [] <-> keep n = false.
+Proof. exact (strip_keep_iff n). Qed.
+
+Theorem C14_strip_shape (n : node str) :
+  strip_node n = if keep n then [match n with Elem t cs => Elem t (strip_empty cs) | _ => n end] else [].
+Proof. exact (strip_spec n). Qed.
+
+(* the output contains no empty text and no childless element other than br/hr/img/input, at any depth *)
+Theorem C14_nothing_empty_left (ns : list (node str)) : forallb hne (strip_empty ns) = true.
+Proof. exact (strip_all_kept ns). Qed.
+
+(* nothing that has content is removed, nothing is added, order and ancestor chains are unchanged *)
+Theorem C14_content_preserved (ns : list (node str)) :
+  citems (strip_empty ns) = filter has_content (citems ns).
+Proof. exact (strip_content_preserved ns). Qed.
+
+Theorem C14_text_preserved (ns : list (node str)) : forest_text (strip_empty ns) = forest_text ns.
+Proof. exact (strip_text ns). Qed.
+
+Theorem C14_idempotent (ns : list (node str)) : strip_empty (strip_empty ns) = strip_empty ns.
+Proof. exact (strip_idem ns). Qed.
+
+Example C14_witness :
+  let p := mkTag [112] [] [] true None in
+  let br := mkTag [98;114] [] [] false None in
+  strip_empty [Elem p [Elem p [Text []]]; Elem p [Elem br []; Text []]; Elem br [Text []]; Elem p [Force]]
+  = [Elem p [Elem br []]; Elem p [Force]].
+Proof. vm_compute. reflexivity. Qed.
+
+Print Assumptions C14_dropped_iff_empty.
+Print Assumptions C14_strip_shape.
+Print Assumptions C14_nothing_empty_left.
+Print Assumptions C14_content_preserved.
+Print Assumptions C14_text_preserved.
+Print Assumptions C14_idempotent.
